@@ -251,6 +251,12 @@ def edited_results(ctx):
             except SyntaxError:
                 firsts.append(None)
                 continue
+            except Exception as e:
+                # (a well-formed rendering: whatever else the parser raises is reported with the text, not left to stop the check)
+                if exp is not None:
+                    ctx.fail("parsing a well-formed rendering raised %s" % type(e).__name__, {"source": src, "the_text_says": exp[:800]})
+                firsts.append(None)
+                continue
             before = parsing.canon_program(tree)
             loaded = parsing.real_load(src)
             want_load = parsing.expected_load(src)
@@ -386,6 +392,12 @@ def run(ctx):
             src, exp = render.render(ast, rng, "\n", wild=wild, one_line=one_line)
             srcs.append(src); expected.append(exp); kinds.append("kinds-side-by-side")
             exacts[src] = render.exact(ast)
+    # whole numbers that a double cannot hold (2**53 + 1 ... 2**64 - 1, 10**30 + 7, runs of up to 1000 digits; signed, `+`, zero-padded; as argument, list item, tuple
+    # value): the renderer knows the integer it wrote - the parsed value is that integer, an int, with every digit
+    for k, ast in enumerate(render.big_int_asts(rng)):
+        src, exp = render.render(ast, rng, "\n", wild=k % 2 == 0, one_line=k % 3 == 0)
+        srcs.append(src); expected.append(exp); kinds.append("big-integers")
+        exacts[src] = render.exact(ast)
     # quoted strings written over several lines with blanks / tabs before their line breaks (content): as argument, list item, tuple value; LF and CRLF files
     for k, ast in enumerate(render.multiline_asts(rng)):
         src, exp = render.render(ast, rng, "\r\n" if k % 4 == 3 else "\n", wild=k % 2 == 0)
@@ -435,7 +447,7 @@ def run(ctx):
             ctx.count("kinds_side_by_side_texts")
             for how, got in (("parsed", parsing.exact_parse(src)), ("parsed by a Parser that has read other texts", parsing.exact_parse(src, parser=veteran)), ("handed to the commands by Program.from_source", parsing.exact_load(src))):
                 if got != exacts[src]:
-                    ctx.fail("numbers of equal value written as different kinds next to each other are not %s as the kinds (and signs) that were written" % how, {"source": src, "written": exacts[src], how.split(" ")[0]: got})
+                    ctx.fail("numbers of equal value written as different kinds next to each other are not %s as the kinds (and signs) that were written" % how if kind != "big-integers" else "whole numbers beyond 2**53 are not %s as the integers that were written (%s)" % (how, got if isinstance(got, str) else "a digit or the kind differs"), {"source": src, "written": exacts[src], how.split(" ")[0]: got})
                     break
         if exp is not None:
             if real != exp:
